@@ -346,8 +346,11 @@ def listing_leg(res, Rec, paths, windows, flagsets):
             for st, en in wsel:
                 h = Rec(starttime=L.us_to_dt(st), endtime=L.us_to_dt(en), **L.flag_kwargs(fl))
                 try:
+                    # the listing in either direction (what is listed does not depend on the direction)
+                    nlist = getattr(listing_leg, "_n", 0) + 1
+                    listing_leg._n = nlist
                     listed = set(digital_rf.lsdrf(top + "/w", starttime=L.us_to_dt(st), endtime=L.us_to_dt(en),
-                                                  **L.flag_kwargs(fl)))
+                                                  reverse=bool(nlist % 2), **L.flag_kwargs(fl)))
                 except Exception as e:  # noqa
                     res.violation("listing-raises-on-universe-tree", "lsdrf raised on the universe tree",
                                   {"kind": kind, "flags": list(fl), "window_us": [st, en]}, "a list", repr(e))
@@ -374,7 +377,7 @@ def listing_leg(res, Rec, paths, windows, flagsets):
                         continue         # the forward-fill file
                     res.violation("filter-vs-lsdrf-%s" % ("accepts-unlisted" if acc else "drops-listed"),
                                   "event filter and lsdrf disagree on a path of the universe tree",
-                                  {"kind": kind, "flags": list(fl), "window_us": [st, en], "path": p}, lst, acc)
+                                  {"kind": kind, "flags": list(fl), "window_us": [st, en], "path": p, "listing_reversed": bool(listing_leg._n % 2)}, lst, acc)
     # properties files: singleton trees
     top = os.path.join(root, "props")
     for i, p in enumerate(prop_paths):
